@@ -377,7 +377,12 @@ func (c *Ctx) branch(cond *Term, fr *Frame) bool {
 		return d.Taken
 	}
 	rt := c.checkSat(cond)
-	rf := c.checkSat(c.tb.Not(cond))
+	rf := "sat"
+	if rt != "unsat" {
+		rf = c.checkSat(c.tb.Not(cond))
+	}
+	// (when the true side is infeasible the false side is taken without a query: the path condition of
+	// a followed path is satisfiable, and a violation always needs its own sat answer anyway)
 	ft, ff := rt != "unsat", rf != "unsat"
 	if rt == "unknown" || rf == "unknown" || rt == "error" || rf == "error" {
 		c.incomplete("solver gave no answer on a branch feasibility query (both sides followed)")
